@@ -213,6 +213,33 @@ def correspondence(ctx):
             ctx.violation("streaming decompression under a segmentation differs from single-call decompression: %r vs %r" % (res[:80], want2[k]), rep)
             continue
         checks.append("dcheck %s %d %s" % (fi[3:] or "-", len(c), " ".join(tr.split()[1:]))); cidx.append(k)
+    # directed: valid frames whose header bytes, read from the middle on, look like the start of another frame (window descriptor + content size field =
+    # a skippable magic / the zstd magic), with the header split between two calls at every position and the rest delivered at once with plenty of output
+    # room: the decoder must not mistake the middle of a buffered header for a frame start (single-pass shortcut)
+    def lookalike(wd, fcs, first_raw):
+        def bh(last, ty, size): return ((size << 3) | (ty << 1) | (1 if last else 0)).to_bytes(3, "little")
+        blocks, content, left = b"", b"", fcs
+        for nraw in first_raw:
+            d = bytes((37 * j + nraw) & 255 for j in range(nraw)); blocks += bh(False, 0, nraw) + d; content += d; left -= nraw
+        k_ = 0
+        while left > 0:
+            nb = min(left, 131072 if wd >= 0x38 else 1 << (10 + (wd >> 3))); left -= nb
+            blocks += bh(left == 0, 1, nb) + bytes([65 + k_ % 20]); content += bytes([65 + k_ % 20]) * nb; k_ += 1
+        return b"\x28\xb5\x2f\xfd" + bytes([0x80, wd]) + fcs.to_bytes(4, "little") + blocks, content
+    la = [lookalike(0x50 + v, 0x00184D2A, [1, 4000]) for v in ((0, 3, 7) if ctx.quick() else range(8))] + [lookalike(0x28, 0x00FD2FB5, [1, 3000])]
+    ll, lw = [], []
+    for f, c in la:
+        for cut in range(1, 10):
+            ll.append("decs %d %s %d,100000000 100000000 fresh" % (len(c), frames.hx(f), cut)); lw.append("dec %d %s" % (len(c), frames.hx(f)))
+    lo = frames.parallel(lambda ch: frames.run_lines_exact(exe, ch, timeout=1800), frames.split_chunks(ll, 16))
+    lref = frames.parallel(lambda ch: frames.run_lines_exact(exe, ch, timeout=1800), frames.split_chunks(sorted(set(lw)), 4))
+    lref = dict(zip(sorted(set(lw)), lref))
+    for ln, w_, o in zip(ll, lw, lo):
+        ev += 1
+        if not lref[w_].startswith("ok") or " ".join(o.split()[:3]) != " ".join(lref[w_].split()[:3]):
+            ctx.violation("streaming decompression with the frame header split between two calls differs from single-call decompression: %r vs %r" % (o[:100], lref[w_][:60]),
+                          dict(kind="monitor", op=ln[:40000000], result=o[:300], reference=lref[w_][:100]))
+            break
     cr = frames.parallel(lambda ch: frames.model_lines(ch), frames.split_chunks(checks, 16))
     for k, r_ in zip(cidx, cr):
         ev += 1
